@@ -1,4 +1,5 @@
 import Gallia.Model.Replay
+import Gallia.Proofs.Lemmas.ReplayState
 namespace Gallia.Replay
 open Gallia
 
@@ -115,11 +116,34 @@ theorem replayAll_append (rows : List Row) (s : Srv) (a b : List Bytes) :
   | nil => rfl
   | cons q qs ih => simp only [List.cons_append, replayAll, runSrv, ih]
 
+@[simp] theorem view_id (sel : Selector) (d : DbRow) : (DbRow.view sel d).id = d.id := by
+  unfold DbRow.view; split <;> rfl
+
+@[simp] theorem view_req (sel : Selector) (d : DbRow) : (DbRow.view sel d).req = d.req := by
+  unfold DbRow.view; split <;> rfl
+
+@[simp] theorem view_resp (sel : Selector) (d : DbRow) : (DbRow.view sel d).resp = d.resp := by
+  unfold DbRow.view; split <;> rfl
+
+theorem view_unselected (sel : Selector) (d : DbRow) (h : selects sel d.run = false) : (DbRow.view sel d).selected = false := by
+  unfold DbRow.view; split <;> simp [h]
+
+theorem view_selected (sel : Selector) (d : DbRow) :
+    (DbRow.view sel d).selected = (selects sel d.run && (decodeSt d.state).isSome) := by
+  unfold DbRow.view; split <;> simp_all
+
 theorem record_view (sel : Selector) (ri : RunInfo) (hsel : selects sel ri = true) (k : Nat) (st : St) (h : List Exch) :
     (recordDb ri k st h).map (DbRow.view sel) = record k st h := by
   induction h generalizing k st with
   | nil => rfl
-  | cons x xs ih => simp only [recordDb, record, List.map_cons, DbRow.view, hsel, ih]
+  | cons x xs ih => simp only [recordDb, record, List.map_cons, DbRow.view, decodeSt_toJson, hsel, ih]
+
+/-- an OEM recording (further state keys behind the two standard ones) looks the same to a server in a plain `ECUState` -/
+theorem recordDbX_view (sel : Selector) (ri : RunInfo) (hsel : selects sel ri = true) (k : Nat) (st : St) (h : List (Exch × JObj)) :
+    (recordDbX ri k st h).map (DbRow.view sel) = record k st (h.map (·.1)) := by
+  induction h generalizing k st with
+  | nil => rfl
+  | cons x xs ih => simp only [recordDbX, record, List.map_cons, DbRow.view, decodeSt_toJson_append, hsel, ih]
 
 /-- one replay step at the head of the recorded suffix: the `id > last` query finds exactly the row of this exchange -/
 theorem replayStep_head (rows : List Row) (huniq : ∀ r ∈ rows, ∀ r' ∈ rows, r.id = r'.id → r = r')
